@@ -244,11 +244,11 @@ def jobs(tier):
     dv = slice_func(MP, r'^static unsigned int dirReverse\(unsigned int direction\)', "dirReverse")
     bn = slice_func(MP, r'^int bends\(const Point& curr, unsigned int currDir, const Point& dest,', "bends")
     cxx = "#include <verif_base.h>\n" + pre + "namespace Avoid {\n" + \
-          "\n".join(s.text for s in (consts, od, dr, dl, dv, bn)) + "\n}\n" + \
+          "\n".join(s.text for s in (consts, od, dr, dl, dv)) + "\n/*@CLOSURE@*/\n" + bn.text + "\n}\n" + \
           'extern "C" int w_bends(void *curr, unsigned int currDir, void *dest, unsigned int destDir)\n' \
           '{ return Avoid::bends(*(const Avoid::Point *)curr, currDir, *(const Avoid::Point *)dest, destDir); }\n'
     spec = spec_header() + rd("bends.spec.c").replace("@MINB@", minb.c_table())
-    js.append(Job("bends", "U", spec, "h_bends", defines=["JOB_bends"], cxx=cxx, enforce="w_bends",
+    js.append(Job("bends", "U", spec, "h_bends", defines=["JOB_bends"], cxx=cxx, enforce="w_bends", closure_file=MP,
                   expect=[r'w_bends\.postcondition\.\d+', r'\.assertion\.\d+'],
                   slices=[consts, od, dr, dl, dv, bn],
                   domain="all non-NaN doubles (incl. +-inf, +-0), all 16 single-bit (currDir,destDir) pairs, curr != dest",
